@@ -102,6 +102,37 @@ def ast_rules(V, cfg):
               "calls_to_non_constexpr": len(lib_hits("NCCALL")), "sanctioned": len(lib_hits("NCCALL")) - len(bad_calls)})
 
 
+def sqrt_algorithms(V):
+    """|sqrt_std_math(x) - sqrt_abacus(x)| <= 1 ulp on the domain, from the functional characterisation of each"""
+    from . import c13, isqrt
+    from .lib import sym
+    try:
+        ctx = lib.Ctx("K17", [], only={"w_sqrt_std", "w_sqrt_abacus"})
+        box = ("i", 1, (1 << 47) - 1)
+        rs = ctx.run("w_sqrt_std", [box])
+        n = 0
+        for p in rs.paths:
+            if lib.feasible_with(p.state, [(sym(0), 1, (1 << 47) - 1)]) is None:
+                continue
+            ok, why = c13.shape_std(p)
+            V.oblige(ok)
+            n += 1
+            if not ok:
+                V.inconc("w_sqrt_std [K17]: result is not the rounded std::sqrt expression (%s): the comparison of the two algorithms is not decided" % why)
+        if n == 0:
+            V.broke("w_sqrt_std: no path on the domain")
+        box2 = ("i", 1, (1 << 48) - 1)
+        ra = ctx.run("w_sqrt_abacus", [box2])
+        inf = isqrt.prove(V, ra, "K17", box2, "sqrt_abacus")
+        ok = inf is not None and inf["N"] == str(sym(0).scale(65536))
+        V.oblige(ok)
+        if inf is not None and not ok:
+            V.inconc("w_sqrt_abacus [K17]: the loop computes floor(sqrt(N)) for N = %s, not for 65536*raw" % inf["N"])
+        V.cover["sqrt_algorithms"] = {"std_paths_with_shape": n, "abacus_iterations_checked": inf["steps"] if inf else 0}
+    except Broken as e:
+        V.broke("sqrt algorithms: %s" % e)
+
+
 def run(tier, seed):
     V = common.Verdict("C08", tier, seed)
     # (a) + ATTR
@@ -147,6 +178,7 @@ def run(tier, seed):
         V.violation("contraction-dependent", "fmuladd", "%s [%s]: llvm.fmuladd at IR line %d: fused and unfused evaluation may round differently "
                     "(multiplier is not a power of two or the product can overflow/underflow)" % (name, cfg, line))
     V.oblige(True, len(set((c, l) for c, l, s in [(a, b, c) for o in outs for a, b, c in o["fma"]])) - len(fma_bad))
+    sqrt_algorithms(V)
     V.cover["programs"] = 2 * len(names)
     if len(names) < 250 and tier != "quick":
         V.broke("only %d wrappers compared" % len(names))
@@ -157,7 +189,8 @@ def run(tier, seed):
             "-std=c++20 are compared pair by pair (summary equivalence): identical returned forms on every jointly feasible path pair. "
             "(c) every llvm.fmuladd in library code has a power-of-two multiplier with an exact product, so -ffp-contract cannot change "
             "results. (d) no reachable UB in any wrapper in either configuration (so every -O level yields the abstract-machine value), and "
-            "no [[gnu::const]]/[[gnu::pure]] function writes through a reference. NOT DECIDED: the two sqrt algorithms differ by <= 1 ulp "
-            "(numeric, DESIGN section 6); GCC/Clang code generators are trusted.")
+            "no [[gnu::const]]/[[gnu::pure]] function writes through a reference. (e) the two square-root algorithms: detail::sqrt_abacus returns floor(y) with "
+            "y = sqrt(65536 raw) (inductive loop invariant, fxai.isqrt) and detail::sqrt_std_math returns an integer within 0.5 + 2^-19 of y "
+            "(shape lemma of C13), so their difference is 0 or 1 ulp for every 0 <= raw < 2^47. GCC/Clang code generators are trusted.")
     return V.finish("other", expl, "./fx check C08 --tier %s" % tier,
                     extra={"wrappers_compared": len(names), "joint_path_pairs": pairs, "fmuladd_sites_seen": fma_total, "configs": ["K17", "K17A", "K20"]})
